@@ -41,7 +41,14 @@ pub enum Op {
     Query { w: u8, q: u16, mode: QMode, salt: Option<u32> },
     ParQuery { w: u8, q: u16, pool: u8, term: PTerm, salt: Option<u32> },
     EntryQuery { w: u8, t: u16, q: u16, salt: Option<u32> },
-    EntriesQuery { w: u8, e: u16, ts: Vec<u16>, salt: Option<u32> },
+    EntriesQuery {
+        w: u8,
+        e: u16,
+        ts: Vec<u16>,
+        salt: Option<u32>,
+        #[serde(default)]
+        interleave: bool,
+    },
     Reserve { w: u8, shape: u16, n: u16 },
     Shrink { w: u8 },
     CloneTo { src: u8, dst: u8 },
@@ -324,7 +331,7 @@ pub fn op_strategy(p: &Profile) -> BoxedStrategy<Op> {
     v.push((p.query, (world_sel(b), any::<u16>(), qmode(), prop::option::weighted(0.7, any::<u32>())).prop_map(|(w, q, mode, salt)| Op::Query { w, q, mode, salt }).boxed()));
     v.push((p.par_query, (world_sel(b), any::<u16>(), 0u8..6, prop::sample::select(PTERMS.to_vec()), prop::option::weighted(0.7, any::<u32>())).prop_map(|(w, q, pool, term, salt)| Op::ParQuery { w, q, pool, term, salt }).boxed()));
     v.push((p.entry_query, (world_sel(b), any::<u16>(), any::<u16>(), prop::option::weighted(0.7, any::<u32>())).prop_map(|(w, t, q, salt)| Op::EntryQuery { w, t, q, salt }).boxed()));
-    v.push((p.entries_query, (world_sel(b), any::<u16>(), prop::collection::vec(any::<u16>(), 1..6), prop::option::weighted(0.7, any::<u32>())).prop_map(|(w, e, ts, salt)| Op::EntriesQuery { w, e, ts, salt }).boxed()));
+    v.push((p.entries_query, (world_sel(b), any::<u16>(), prop::collection::vec(any::<u16>(), 1..6), prop::option::weighted(0.7, any::<u32>()), any::<bool>()).prop_map(|(w, e, ts, salt, interleave)| Op::EntriesQuery { w, e, ts, salt, interleave }).boxed()));
     v.push((p.reserve, (world_sel(b), shape_sel(few), prop_oneof![0u16..8, 0u16..200, 200u16..4096]).prop_map(|(w, shape, n)| Op::Reserve { w, shape, n }).boxed()));
     v.push((p.shrink, world_sel(b).prop_map(|w| Op::Shrink { w }).boxed()));
     v.push((p.clone_to, (0u8..3, 0u8..3).prop_map(|(src, dst)| Op::CloneTo { src, dst }).boxed()));
